@@ -28,7 +28,9 @@ UnitList(mass, energy) ==
    SetToSeq({UnitRec(u, energy) : u \in {v \in Units : PerMass(v) => mass}})
 Ser(c) ==
    [cls |-> c.cls, form |-> c.form, q |-> c.q, state |-> c.state, opts |-> c.opts,
-    shape |-> c.shape, tgiven |-> c.tgiven,
+    shape |-> c.shape, tgiven |-> c.tgiven, phase |-> c.phase,
+    own |-> IF c.own = NoUnit THEN "none" ELSE RKey(c.own),
+    must |-> {UnitStr(u, Energy(c.q)) : u \in MustAsk(c)},
     getter |-> Getter(c.form, c.q), twin |-> Twin(c.form, c.q),
     kwD |-> KwD(c), kwT |-> KwT(c),
     dflt |-> {[name |-> d[1], sym |-> d[2]] : d \in Defaults(c)},
